@@ -20,6 +20,15 @@ func (sh *Shared) bindDecls(cs *ContractSet) error {
 	}
 	for _, ti := range cs.TypeInvs {
 		pkg := pkgByName(ti.Pkg)
+		if ti.Kind == "pureglobal" {
+			// the function stored in this package-level variable (an injected source of randomness, a clock ...) has
+			// no effect on emulator state; its result is unconstrained
+			if pkg == nil || pkg.Scope().Lookup(ti.Field) == nil {
+				return fmt.Errorf("typeinv pureglobal %s: no such package-level variable in %s", ti.Field, ti.Pkg)
+			}
+			sh.pureFuncField["G:"+pkg.Path()+"."+ti.Field] = true
+			continue
+		}
 		t, err := w.resolveType(pkg, ti.Type)
 		if err != nil {
 			return fmt.Errorf("typeinv %s.%s: %v", ti.Type, ti.Field, err)
